@@ -7,7 +7,7 @@
 // NOTE tools/vlib.build_harness does not hash this header: bump TREEDYN_GEN_VERSION here AND in every Cnn.cpp.
 #ifndef VERIF_TREEDYN_GEN_H
 #define VERIF_TREEDYN_GEN_H
-#define TREEDYN_GEN_VERSION 8
+#define TREEDYN_GEN_VERSION 10
 #include "Simbody.h"
 #include "hcommon.h"
 #include <memory>
@@ -27,7 +27,10 @@ static const char frameKind[] = {'I', 'T', 'G'};   // identity, translation-only
 struct Options {
     int maxBodies = 12;
     bool allowWeld = true;
-    bool allowMassless = false;   // reserved
+    bool allowMassless = false;   // massless intermediate bodies (never terminal)
+    bool allowPrescribed = false; // Motion::Steady / Motion::Sinusoid on mobilizers with qdot == u
+    bool forceLoneParticle = false; // body 1 = forward Translation on Ground, identity frames, no children (RBNodeLoneParticle)
+    bool allowConstraint = false; // one Rod / Ball / Weld-free constraint between two bodies in some cases
     double zeroUProb = 0.0;       // probability of u == 0
 };
 
@@ -42,6 +45,8 @@ struct TreeCase {
     std::vector<int> type; std::vector<std::string> tag;
     State state; int nb = 0, nu = 0; bool euler = false; std::string shape;
     vh::Rng g{0};                               // continues after construction: test vectors come from it
+    int nMassless = 0, nPrescribed = 0; std::string constraintTag = "none";
+    std::vector<int> parentOf;
 };
 
 inline Vec3 rvec(vh::Rng& g, double s) { return Vec3(g.range(-s, s), g.range(-s, s), g.range(-s, s)); }
@@ -116,35 +121,59 @@ inline std::unique_ptr<TreeCase> buildCase(uint64_t caseSeed, const Options& opt
     vh::Rng& g = c.g;
     c.sys.reset(new MultibodySystem); c.matter.reset(new SimbodyMatterSubsystem(*c.sys));
     c.forces.reset(new GeneralForceSubsystem(*c.sys));
-    c.mobods.push_back(c.matter->Ground()); c.type.push_back(-1); c.tag.push_back("ground");
+    c.mobods.push_back(c.matter->Ground()); c.type.push_back(-1); c.tag.push_back("ground"); c.parentOf.push_back(-1);
     // size: small trees most often, occasionally the cap
     int nb;
     { int r = g.below(10); nb = r < 6 ? 1 + g.below(std::min(6, opt.maxBodies)) : 1 + g.below(opt.maxBodies); }
     const int shape = g.below(4);                          // 0 chain, 1 star, 2 random, 3 binary-ish
     c.shape = shape == 0 ? "chain" : shape == 1 ? "star" : shape == 2 ? "random" : "bushy";
     c.euler = g.below(3) == 0;
-    int nuSoFar = 0;
+    int nuSoFar = 0; bool prevMassless = false;
     for (int i = 1; i <= nb; ++i) {
         int p;
         if (shape == 0) p = i - 1;
         else if (shape == 1) p = (i <= 1 || g.below(4) == 0) ? 0 : 1;
         else if (shape == 2) p = g.below(i);
         else p = i / 2;
+        if (opt.forceLoneParticle && i > 1 && p == 1) p = 0;
         int t = g.below(NumMobTypes);
         if (t == Weld && (!opt.allowWeld)) t = Pin;
         // keep the total number of mobilities moderate for big trees (6-dof joints on 40 bodies -> 240 u's)
         if (nuSoFar > 60 && (t == Free || t == Bushing || t == FreeLine)) t = Pin + g.below(2);
-        const bool rev = (t != Weld) && g.below(3) == 0;
-        const int kf = g.below(3), km = g.below(3);
+        bool rev = (t != Weld) && g.below(3) == 0;
+        int kf = g.below(3), km = g.below(3);
+        if (prevMassless) {   // the child of a massless body: generic frames and a joint that transmits most of its inertia
+            static const int okTypes[] = {Pin, Slider, Weld, Universal};
+            t = okTypes[g.below(4)]; kf = km = 2; if (t == Weld) rev = false;
+        }
+        if (opt.forceLoneParticle && i == 1) { t = Translation; rev = false; kf = km = 0; }
         const Transform XPF = rframe(g, kf), XBM = rframe(g, km);
-        Body::Rigid body(rmass(g));
+        // a massless body is allowed only where a child is certain to follow (chain, not last) and behind a 1-dof joint
+        const bool massless = opt.allowMassless && shape == 0 && i < nb && i > 1 && (t == Pin || t == Slider) && g.below(6) == 0
+                              && !prevMassless && !(c.nMassless > 0);
+        if (massless) ++c.nMassless;
+        prevMassless = massless;
+        Body::Rigid body(massless ? MassProperties(0, Vec3(0), Inertia(0)) : rmass(g));
         MobilizedBody mb = makeMobod(t, c.mobods[p], XPF, body, XBM, rev, g);
-        c.mobods.push_back(mb); c.type.push_back(t);
+        c.mobods.push_back(mb); c.type.push_back(t); c.parentOf.push_back(p);
+        if (opt.allowPrescribed && !massless && (t == Pin || t == Slider || t == Cylinder || t == Planar || t == Translation || t == Universal)
+            && g.below(6) == 0) {
+            ++c.nPrescribed;
+            if (g.coin()) Motion::Steady(mb, g.range(-1, 1));
+            else Motion::Sinusoid(mb, Motion::Position, g.range(0.3, 1.0), g.range(0.5, 2.0), g.range(0.3, 1.2));
+        }
         c.tag.push_back(std::string(mobName[t]) + (rev ? ".rev." : ".fwd.") + frameKind[kf] + frameKind[km] + (c.euler ? ".euler" : ".quat"));
         static const int dofOf[] = {1, 1, 2, 2, 2, 3, 3, 6, 3, 3, 6, 2, 5, 0, 1, 3, 3};
         nuSoFar += dofOf[t];
     }
     c.nb = nb;
+    if (opt.allowConstraint && nb >= 2 && g.below(3) == 0) {
+        const int b1 = 1 + g.below(nb); int b2 = g.below(nb + 1); if (b2 == b1) b2 = 0;
+        const int kind = g.below(3);
+        if (kind == 0) { Constraint::Rod(c.mobods[b1], rvec(g, 0.5), c.mobods[b2], rvec(g, 0.5), g.range(0.5, 2.0)); c.constraintTag = "Rod"; }
+        else if (kind == 1) { Constraint::Ball(c.mobods[b1], rvec(g, 0.5), c.mobods[b2], rvec(g, 0.5)); c.constraintTag = "Ball"; }
+        else { Constraint::PointInPlane(c.mobods[b2], UnitVec3(rvec(g, 1.0) + Vec3(0.1, 0.2, 1.5)), g.range(-0.5, 0.5), c.mobods[b1], rvec(g, 0.5)); c.constraintTag = "PointInPlane"; }
+    }
     c.discrete = Force::DiscreteForces(*c.forces, *c.matter);
     c.sys->realizeTopology();
     c.state = c.sys->getDefaultState();
@@ -156,6 +185,12 @@ inline std::unique_ptr<TreeCase> buildCase(uint64_t caseSeed, const Options& opt
     Vector u(c.nu);
     for (int k = 0; k < c.nu; ++k) u[k] = zeroU ? 0.0 : g.range(-1, 1);
     c.state.updU() = u;
+    if (c.nPrescribed) {
+        c.sys->realize(c.state, Stage::Time);
+        c.sys->prescribeQ(c.state);
+        c.sys->realize(c.state, Stage::Position);
+        c.sys->prescribeU(c.state);
+    }
     c.sys->realize(c.state, Stage::Velocity);
     return pc;
 }
